@@ -1480,6 +1480,57 @@ package leveldb
 //@   at before call (*version).get#1
 //@     assert [C01:buffers-before-tables] calls("memGet") == old(calls("memGet")) + (auxm != nil ? 1 : 0) + (em != nil ? 1 : 0) + (fm != nil ? 1 : 0)
 
+// C02 (absolute moves): Seek positions the merged source at the earliest internal key of the target at the iterator's
+// own sequence number (so that nothing newer than the snapshot is looked at first and nothing of the target is
+// skipped); a source with nothing at or after the start leaves the iterator off the end, one with nothing at all
+// before the end leaves it before the start.
+//@ ghost var gRawOK bool
+//@ func (*dbIter).Seek
+//@   props C02
+//@   abstract keys
+//@   safety off
+//@   requires i.seq <= keyMaxSeq
+//@   at before call iterator.IteratorSeeker.Seek#1
+//@     assert [C02:source-sought-at-the-target-and-the-iterators-sequence] kcmp(ukeyof(arg0), key) == 0 && numof(arg0) == i.seq * 256 + keyTypeSeek
+//@   at call iterator.IteratorSeeker.Seek#1
+//@     ghost gRawOK = result
+//@   at entry
+//@     ghost gRawOK = true
+//@   ensures [C02:nothing-at-or-after-the-target-is-the-end] (old(i.err) == nil && old(i.dir) != dirReleased && !gRawOK) ==> (!result && i.dir == dirEOI)
+//@ func (*dbIter).First
+//@   props C02
+//@   abstract keys
+//@   safety off
+//@   at call iterator.IteratorSeeker.First#1
+//@     ghost gRawOK = result
+//@   at entry
+//@     ghost gRawOK = true
+//@   ensures [C02:empty-source-is-the-end] (old(i.err) == nil && old(i.dir) != dirReleased && !gRawOK) ==> (!result && i.dir == dirEOI)
+//@ func (*dbIter).Last
+//@   props C02
+//@   abstract keys
+//@   safety off
+//@   at call iterator.IteratorSeeker.Last#1
+//@     ghost gRawOK = result
+//@   at entry
+//@     ghost gRawOK = true
+//@   ensures [C02:empty-source-is-the-start] (old(i.err) == nil && old(i.dir) != dirReleased && !gRawOK) ==> (!result && i.dir == dirSOI)
+
+// C02 (relative moves at the ends): stepping forward at the end stays at the end, stepping backward before the start
+// stays before the start, and neither touches the source.
+//@ func (*dbIter).Next
+//@   props C02
+//@   abstract keys
+//@   safety off
+//@   ensures [C02:next-at-the-end-stays-at-the-end] old(i.dir) == dirEOI ==> (!result && i.dir == dirEOI && i.err == old(i.err))
+//@   ensures [C02:a-failed-iterator-does-not-move] old(i.err) != nil ==> (!result && i.dir == old(i.dir) && i.err == old(i.err))
+//@ func (*dbIter).Prev
+//@   props C02
+//@   abstract keys
+//@   safety off
+//@   ensures [C02:prev-before-the-start-stays-there] old(i.dir) == dirSOI ==> (!result && i.dir == dirSOI && i.err == old(i.err))
+//@   ensures [C02:a-failed-iterator-does-not-move] old(i.err) != nil ==> (!result && i.dir == old(i.dir) && i.err == old(i.err))
+
 // C02 (range slicing): an iterator restricted to a key range is assembled from sources that are each restricted
 // to that same range - the transaction's buffer and tables, the write buffers and the tables of the version.
 //@ func (*DB).newRawIterator
